@@ -85,4 +85,12 @@ PROPS = {
         "text": "All 625^2 pairs of integer quaternions {-2..2}^4 for the Hamilton product (operator, method, assign, Product), conjugate, +, -, scalar ops, dot, length_squared, ==, and all (q, v) in {-2..2}^4 x {-1,0,1}^3 for q*v (Vec3 and Vec3A) are compared exactly with integer arithmetic (bilinear / polynomial identity); all pairs of a ROT sub-family x direction vectors check q*v against the f64 polynomial and rotation matrix, length preservation, associativity, inverse, -q within K*eps*|q|^2*|v|.",
         "note": TRUST + "; real inputs off the enumerated families are not covered",
     },
+    "C02": {
+        "quick": ["sse2", "scalar"], "thorough": ["sse2", "scalar", "coresimd", "libm"],
+        "level": "exploration", "engine": "E1-sweep",
+        "technique": "exhaustive integer grids (exact), enumerated direction-pair families x magnitude scales vs f64 within a-priori K*eps*sum|terms| envelopes, normalize family over the full special-value lattice with normal/fallback/slack classification",
+        "design_ref": "DESIGN.md §3 C02",
+        "text": "All pairs of integer vectors {-2..2}^N decide the polynomial kernels exactly; every base direction x 114 partners (other directions, nearly parallel / anti-parallel / cancellation perturbations) x 5 magnitude scale pairs is compared with an f64 reference within K*eps*sum of |terms| (K = 2 x rounding depth), refract on both sides of total internal reflection with the boundary slack accepted either way, angles against the well-conditioned atan2 form; every vector with lanes from the special lattice is classified from its exactly evaluated length into normal (unit result required), fallback (documented fallback required bit-for-bit) or slack (finiteness only).",
+        "note": TRUST + "; an operation is judged only where every product of as many component magnitudes as its formula multiplies stays in the normal range (reading of 'whose products neither overflow nor underflow', see DESIGN); real inputs off the families are not covered",
+    },
 }
